@@ -9,6 +9,10 @@ def run(ctx):
     storefam.run_family(ctx, seeds=[ctx.seed])
     # the same rules along model histories (SimStore, 3 parameter sets, default switches) against one real directory each
     storefam.histories(ctx, 200 if ctx.tier == "quick" else 2000)
+    # a running agent whose configuration retires a parameter set by a reload: records of that set stop authenticating at once
+    # (reload sequences validated against Reload.tla: a login works iff the record's set is configured now)
+    import reloadfam
+    reloadfam.run(ctx, prop="C02")
     ctx.coverage["exhaustive"] = True
     ctx.coverage["rule"] = ("every combination of first-line field classes with at most %d deviations from a canonical record is built as "
                             "real bytes (both algorithms, .user and .admin) and exercised through authenticate (right / wrong / empty / "
